@@ -105,6 +105,10 @@ static void build_cases(std::vector<FCase>& out, bool T) {
     add("length", "+2", good + std::string(2, '\1'), REJECT, base); add("length", "+row", good + data.substr(0, 8), REJECT, base);
     add("length", "+image", good + data, REJECT, base); add("length", "-1", good.substr(0, good.size() - 1), REJECT, base);
     add("length", "-2", good.substr(0, good.size() - 2), REJECT, base); add("length", "-row", good.substr(0, good.size() - 8), REJECT, base);
+    // headers that imply >= 4 GiB of pixel data with a data section whose length equals that size modulo 2^32 (a length
+    // check done in 32-bit arithmetic would accept them)
+    add("length", "65536x32769-mod2^32", assemble("P5", header_lines(base), "65536 32769", "65535", std::string(131072, '\1')), REJECT, base);
+    add("length", "32768x65537-mod2^32", assemble("P5", header_lines(base), "32768 65537", "65535", std::string(65536, '\1')), REJECT, base);
     add("length", "no-data", head, REJECT, base); add("length", "extra-blank-before-data", head + " " + data, REJECT, base);
     add("length", "missing-blank-before-data", head.substr(0, head.size() - 1) + data, REJECT, base);
   }
